@@ -110,7 +110,7 @@ PROPS['C12'] = A(level='model_checking', engine='sched', harnesses=SCHED('harnes
     assumptions=TRUST + ['interleaving (sequentially consistent) semantics; memory-order defects are caught as missing happens-before edges (vector clocks, TSan), not by enumerating weak-memory executions'])
 
 PROPS['C05'] = A(level='model_checking', engine='sched', harnesses=SCHED('harness/c05_slab_mt.cpp'), budget=A(quick=170, thorough=1700),
-    bounds=A(quick='slab_pool<tiny policy, scheduler mutex>: 7 thread scripts (2-3 threads, 1-4 pool calls each, all on shared size classes: both threads find a class empty; race for the last free object while a third frees into the slab; cross-thread free through a mailbox; realloc across classes; large frames vs. slab creation; unaligned map; full slab refill), every lock/unlock a scheduling point, all schedules with <=3 preemptions; each script explored with ASan+oracles and again under ThreadSanitizer',
+    bounds=A(quick='slab_pool<tiny policy, scheduler mutex>: 8 thread scripts (2-4 threads, 1-4 pool calls each, all on shared size classes: both threads find a class empty; race for the last free object while a third frees into the slab; cross-thread free through a mailbox; realloc across classes; large frames vs. slab creation; unaligned map; full slab refill), every lock/unlock a scheduling point, all schedules with <=3 preemptions; each script explored with ASan+oracles and again under ThreadSanitizer',
              thorough='<=4 preemptions; H1 with all interleavings; three allocators; two classes'),
     technique='stateless model checking: exhaustive preemption-bounded enumeration of thread schedules of the real slab_pool under a serialising scheduler, oracles on every schedule, ThreadSanitizer over the same schedules',
     assumptions=TRUST + ['plain memory accesses are not scheduling points; data-race freedom is checked separately by ThreadSanitizer on every explored schedule', 'interleaving semantics'])
